@@ -75,6 +75,7 @@ type Replay struct {
 // ------------------------------------------------------------------ generation
 
 var snippets = []string{
+	"echo $((  $x + 1 ))  \"${y}\"\n",
 	"if true;then\necho   hi\nfi\n",
 	"foo(){\nbar   baz\n}\n",
 	"for i in 1 2 3;do echo $i;done\n",
@@ -85,6 +86,7 @@ var snippets = []string{
 	"cat <<EOF\nhere   doc\nEOF\n",
 	"a=(  1   2  3 )\n",
 	"[[ -n   $x ]]   &&   echo yes\n",
+	"[[ \"$a\"   == \"b\" ]] || (( $i  > 2 ))\n",
 }
 
 func genContent(r *kit.Rand, size int, formatted bool, posixOnlyContent bool) []byte {
@@ -96,7 +98,7 @@ func genContent(r *kit.Rand, size int, formatted bool, posixOnlyContent bool) []
 	if posixOnlyContent || strings.HasPrefix(sb.String(), "#!/bin/sh") {
 		// keep the file parseable as POSIX shell (no arrays, no [[ ]]); files
 		// that do not parse are a scenario kind of their own (broken.sh)
-		snippets = snippets[:8]
+		snippets = snippets[:9]
 	}
 	if formatted {
 		for sb.Len() < size {
@@ -185,6 +187,13 @@ func genScenario(root uint64, idx int) *Scenario {
 				Content: base64.StdEncoding.EncodeToString(genContent(r3, kit.Pick(r3, []int{20, 3000, 70000}), false, posixOnlyContent))})
 			sc.Args = append(sc.Args, "after-big.sh")
 		}
+	}
+	// An .editorconfig whose simplify/minify section matches the first file
+	// only (options must not stick from one file to the next). shfmt only
+	// consults it when no formatting flag is given.
+	if r4 := r.Fork("editorconfig"); (r4.Chance(1, 8) || idx%16 == 9) && len(sc.Flags) == 1 {
+		ec := "root = true\n\n[*.sh]\nindent_style = " + kit.Pick(r4, []string{"tab", "space\nindent_size = 2"}) + "\n\n[" + firstRegular(sc) + "]\n" + kit.Pick(r4, []string{"simplify = true", "minify = true", "simplify = true\nbinary_next_line = true", "space_redirects = true\nsimplify = true"}) + "\n"
+		sc.Targets = append(sc.Targets, Target{Name: prefix + ".editorconfig", Kind: "regular", Mode: 0o644, Content: base64.StdEncoding.EncodeToString([]byte(ec))})
 	}
 	// drawn from a separate stream so that earlier scenarios stay the same
 	r2 := r.Fork("extra-targets")
@@ -379,6 +388,76 @@ type call struct {
 var tempSuffixRE = regexp.MustCompile(`(/\.[^/"]*?)[0-9]{4,}"`)
 var pointerRE = regexp.MustCompile(`0x[0-9a-f]{6,}`)
 var lineRE = regexp.MustCompile(`^(\d+)\s+([a-z0-9_]+)\((.*)$`)
+
+func firstRegular(sc *Scenario) string {
+	for _, t := range sc.Targets {
+		if t.Kind == "regular" {
+			return filepath.Base(t.Name)
+		}
+	}
+	return "none.sh"
+}
+
+// plainWrite reports whether the flags make shfmt rewrite files without
+// also listing or diffing them (-l and -d change what -w does).
+func plainWrite(flags []string) bool {
+	for _, f := range flags {
+		if f == "-l" || f == "-d" {
+			return false
+		}
+	}
+	return true
+}
+
+const recoveredSrc, recoveredFmt = "echo   recovered;  echo   again\n", "echo recovered\necho again\n"
+
+// recoveryRun rewrites the regular ".sh" targets with a tiny unformatted
+// script, runs shfmt -w once more without faults and checks the outcome.
+func (w *world) recoveryRun(sc *Scenario, tempsBefore []string) string {
+	var handled []string
+	for _, t := range sc.Targets {
+		if t.Kind != "regular" || !strings.HasSuffix(t.Name, ".sh") || strings.HasSuffix(t.Name, "broken.sh") || len(filepath.Base(t.Name)) > 200 {
+			continue
+		}
+		p := filepath.Join(w.work, t.Name)
+		f, err := os.OpenFile(p, os.O_WRONLY|os.O_TRUNC, 0)
+		if err != nil {
+			os.Chmod(p, 0o600) // a read-only mode: open it up, write, restore
+			f, err = os.OpenFile(p, os.O_WRONLY|os.O_TRUNC, 0)
+			defer os.Chmod(p, os.FileMode(t.Mode))
+			if err != nil {
+				continue
+			}
+		}
+		f.WriteString(recoveredSrc)
+		f.Close()
+		handled = append(handled, t.Name)
+	}
+	if len(handled) == 0 {
+		return ""
+	}
+	if _, err := w.runPlain(sc); err != nil {
+		return "recovery run: " + err.Error()
+	}
+	got, temps := w.snapshot()
+	want := kit.Digest([]byte(recoveredFmt))
+	for _, n := range handled {
+		e := got["work/"+n]
+		if e.Kind != "regular" || e.Sum != want {
+			return fmt.Sprintf("after a killed run, new content and a second, completed run, work/%s holds %d bytes (%s) instead of the %d formatted bytes", n, e.Size, e.Sum, len(recoveredFmt))
+		}
+	}
+	before := map[string]bool{}
+	for _, t := range tempsBefore {
+		before[t] = true
+	}
+	for _, t := range temps {
+		if !before[t] {
+			return "the completed run after a killed one left a temporary file of its own: " + t
+		}
+	}
+	return ""
+}
 
 // runPlain runs shfmt on the scenario directly: no strace, no GOMAXPROCS limit.
 func (w *world) runPlain(sc *Scenario) (exit int, err error) {
@@ -690,6 +769,7 @@ func (w *world) stdoutMode(sc *Scenario, orig map[string]entry) map[string]strin
 }
 
 type scenStats struct {
+	recoveryRuns          int
 	plainRuns             int
 	readErrContentDiffers int
 	stdoutChecks          int
@@ -878,6 +958,18 @@ func runScenario(sc *Scenario, only *KillPoint) (*scenStats, error) {
 			st.viol = &Replay{Property: "C35", World: "C", Scenario: *sc, Kill: &kp, Class: v.class, Key: v.key, Detail: v.detail + fmt.Sprintf(" [killed before %s, occurrence %d: %s]", kp.Syscall, kp.When, kit.Clip(kp.Masked, 200))}
 			return st, nil
 		}
+		// Recovery: on top of what the killed run left behind (temporary
+		// files included), the targets get new, shorter content and shfmt
+		// runs again, to completion. Afterwards every target it handles
+		// holds exactly the formatted form of the new content, and the run
+		// has added no temporary file of its own.
+		if r.killed && kp.AfterTemp && plainWrite(sc.Flags) && (only != nil || (st.killRuns%6 == 3 && st.recoveryRuns < 10)) {
+			if rv := w.recoveryRun(sc, temps); rv != "" {
+				st.viol = &Replay{Property: "C35", World: "C", Scenario: *sc, Kill: &kp, Class: "recovery-run-after-kill", Key: "recovery-run-after-kill", Detail: rv + fmt.Sprintf(" [first run killed before %s, occurrence %d]", kp.Syscall, kp.When)}
+				return st, nil
+			}
+			st.recoveryRuns++
+		}
 	}
 	// Error returns instead of kills, at the calls that finish the
 	// replacement once the temporary file exists: the run completes by
@@ -952,7 +1044,7 @@ func main() {
 	root := kit.RootSeed(20260921)
 	n := 16
 	if tier == "thorough" {
-		n = 480
+		n = 240
 	}
 	if s := os.Getenv("VERIF_NCASES"); s != "" {
 		n, _ = strconv.Atoi(s)
@@ -1008,7 +1100,7 @@ func main() {
 	var (
 		killRuns, hits, misfires, afterTemp, discarded, refCalls, bigWrites, completed, errRuns int
 		errSyscalls                                                                             = kit.Counter{}
-		stdoutChecks, readErrDiff, plainRuns                                                    int
+		stdoutChecks, readErrDiff, plainRuns, recoveryRuns                                      int
 		distinct                                                                                = map[string]bool{}
 		syscalls                                                                                = kit.Counter{}
 		samples                                                                                 []any
@@ -1037,6 +1129,7 @@ func main() {
 		}
 		stdoutChecks += st.stdoutChecks
 		plainRuns += st.plainRuns
+		recoveryRuns += st.recoveryRuns
 		readErrDiff += st.readErrContentDiffers
 		for k := range st.distinct {
 			distinct[k] = true
@@ -1087,6 +1180,7 @@ func main() {
 		"evaluations": killRuns + completed + errRuns,
 		"io_error_injection_runs(EIO at every read of a source file, and at write/fsync/rename/fchmod once the temp file exists; the run completes by itself)":            map[string]any{"runs": errRuns, "by_syscall": errSyscalls},
 		"non_gating_info: runs in which a file held neither original nor reference bytes after a failed READ of the source (outside the property, which speaks of kills)": readErrDiff,
+		"recovery_runs(after a kill: new shorter content on top of the leftovers, second run to completion, content and own temporary files checked)":                     recoveryRuns,
 		"completed_runs_without_strace_on_all_cores(same oracle as the traced completed run)":                                                                             plainRuns,
 		"files_compared_with_stdout_mode(shfmt without -w, same flags: the independent definition of 'the formatted bytes')":                                              stdoutChecks,
 		"distinct_nontrivial":           len(distinct),
